@@ -88,7 +88,7 @@ MCNext ==
              \E o \in RetireOuts(seq, via) : RecvRetire(seq, via, o)
     \/ MCSend
     \/ MCFates
-    \/ focus # "local" /\ \E tok \in MCToks, acc \in BOOLEAN : Reset(tok, acc)
+    \/ focus # "local" /\ \E tok \in MCToks \cup MCTok0s \cup {Z}, acc \in BOOLEAN : Reset(tok, acc)
     \/ Close
     \/ Drain
 
